@@ -7,9 +7,13 @@
      "state"  - in arrays that are compactified together with the particles (the repaired implementation)
      "forcing"- in the forcing object, untouched by compactification (the pinned implementation; refuted by TLC: C14)
    NpidMode tells how a warm start restores the identifier counter: "count" (number released so far, written with the
-   particle variables) or "maxpid" (highest identifier present in the restart file; refuted by TLC: C08).       *)
+   particle variables) or "maxpid" (highest identifier present in the restart file; refuted by TLC: C08).
+   Layout "sparse" compactifies at output and writes the living particles one after the other; "dense" never compactifies and
+   writes the value of the particle at list position i into column i (the implementation's `has_value` mask): the column is
+   the particle's identifier only because the list is never compacted - CompactMode "everystep" (a tidy-up that looks
+   harmless, removing the dead after every step) is refuted for the dense layout by TLC (C06).                    *)
 EXTENDS Integers, Sequences, FiniteSets
-CONSTANTS W, NSTEPS, CacheMode, NpidMode
+CONSTANTS W, NSTEPS, CacheMode, NpidMode, Layout, CompactMode
 
 \* scenario sc = [rel : step -> sequence of levels released at that step, kill : set of <<step, pid>>, ops, numrec]
 Vel(level) == IF level = 0 THEN 1 ELSE 0                               \* the forcing: surface layer flows, deep layer rests
@@ -32,11 +36,14 @@ Due(m, sc, warm) == m.step >= (IF warm THEN 1 ELSE 0) /\ m.step % sc.ops = 0
 \* output: compactify (sparse layout), then append the record; the cache follows the particles only in "state" mode
 Output(m, sc, warm) ==
    IF ~Due(m, sc, warm) THEN [m EXCEPT !.pc = "move"]
+   ELSE IF Layout = "dense"
+   THEN LET cols == SelectSeq([i \in 1..Len(m.parts) |-> i], LAMBDA i : m.parts[i].alive)          \* columns written = list positions of the living
+        IN [m EXCEPT !.pc = "move", !.hist = Append(@, [step |-> m.step, parts |-> Alive(m.parts), npid |-> m.npid, cols |-> cols])]
    ELSE LET keep == { i \in 1..Len(m.parts) : m.parts[i].alive }
             P2 == Alive(m.parts)
             C2 == IF CacheMode = "state" THEN SelectSeq(m.cache, LAMBDA c : \E i \in keep : m.parts[i].pid = c.pid) ELSE m.cache
         IN [m EXCEPT !.parts = P2, !.cache = C2, !.pc = "move",
-                     !.hist = Append(@, [step |-> m.step, parts |-> P2, npid |-> m.npid])]
+                     !.hist = Append(@, [step |-> m.step, parts |-> P2, npid |-> m.npid, cols |-> <<>>])]
 \* move: particle i uses the cached value at *list position* i (what an array-based implementation does)
 Move(m) ==
    LET mv(i) == LET p == m.parts[i]
@@ -45,9 +52,9 @@ Move(m) ==
                 IN IF ~p.alive THEN p ELSE IF ~InChannel(x2) THEN [p EXCEPT !.alive = FALSE] ELSE [p EXCEPT !.x = x2]
    IN [m EXCEPT !.parts = [i \in 1..Len(m.parts) |-> mv(i)], !.pc = "ibm"]
 Ibm(m, sc) ==
-   [m EXCEPT !.parts = [i \in 1..Len(m.parts) |-> LET p == m.parts[i] IN
-                           IF p.alive THEN [p EXCEPT !.age = @ + 1, !.alive = <<m.step, p.pid>> \notin sc.kill] ELSE p],
-             !.pc = "timer"]
+   LET P1 == [i \in 1..Len(m.parts) |-> LET p == m.parts[i] IN
+                 IF p.alive THEN [p EXCEPT !.age = @ + 1, !.alive = <<m.step, p.pid>> \notin sc.kill] ELSE p]
+   IN [m EXCEPT !.parts = IF CompactMode = "everystep" THEN Alive(P1) ELSE P1, !.pc = "timer"]
 \* one whole step of Model.update
 StepAll(m, sc, warm) == Ibm(Move(Output(Force(Release(Timer(m), sc, FALSE), "output"), sc, warm)), sc)
 \* Model.__init__ with warm start from the record `rec`: state from the record, catch-up cycle without output
